@@ -107,17 +107,14 @@ func propC13(c *Ctx) {
 
 	defer c13Historical(c)
 	c.Rule("C13.R1", func() {
-		c.writersTable("C13.R1", K, "Validators", setOf("Set"), []string{"(opchild/keeper.Keeper).SetValidator", "(opchild/keeper.Keeper).ChangeExecutor"})
-		c.writersTable("C13.R1", K, "Validators", setOf("Remove", "Clear"), []string{"(opchild/keeper.Keeper).RemoveValidator"})
-		c.writersTable("C13.R1", K, "ValidatorsByConsAddr", setOf("Set"), []string{"(opchild/keeper.Keeper).SetValidatorByConsAddr"})
-		c.writersTable("C13.R1", K, "ValidatorsByConsAddr", setOf("Remove", "Clear"), []string{"(opchild/keeper.Keeper).RemoveValidator"})
-		c.writersTable("C13.R1", K, "LastValidatorPowers", setOf("Set"), []string{"(opchild/keeper.Keeper).ApplyAndReturnValidatorSetUpdates", "(opchild/keeper.Keeper).InitGenesis"})
-		c.writersTable("C13.R1", K, "LastValidatorPowers", setOf("Remove", "Clear"), []string{"(opchild/keeper.Keeper).ApplyAndReturnValidatorSetUpdates"})
-		callersTable(c, "C13.R1", c.Method(childKeeper, "Keeper", "SetValidator"),
-			[]string{"(opchild/keeper.MsgServer).AddValidator", "(opchild/keeper.MsgServer).RemoveValidator", "(opchild/keeper.Keeper).ChangeExecutor", "(opchild/keeper.Keeper).InitGenesis"})
-		callersTable(c, "C13.R1", c.Method(childKeeper, "Keeper", "RemoveValidator"), []string{"(opchild/keeper.Keeper).ApplyAndReturnValidatorSetUpdates"})
-		callersTable(c, "C13.R1", c.Method(childKeeper, "Keeper", "SetLastValidatorPower"), []string{"(opchild/keeper.Keeper).ApplyAndReturnValidatorSetUpdates", "(opchild/keeper.Keeper).InitGenesis"})
-		callersTable(c, "C13.R1", c.Method(childKeeper, "Keeper", "DeleteLastValidatorPower"), []string{"(opchild/keeper.Keeper).ApplyAndReturnValidatorSetUpdates"})
+		c.writersTable("C13.R1", K, "Validators", setOf("Set"), []string{"(opchild/keeper.MsgServer).AddValidator", "(opchild/keeper.MsgServer).RemoveValidator", "(opchild.AppModule).EndBlock", "(opchild.AppModule).InitGenesis"})
+		c.writersTable("C13.R1", K, "Validators", setOf("Remove", "Clear"), []string{"(opchild.AppModule).EndBlock", "(opchild.AppModule).InitGenesis"})
+		c.writersTable("C13.R1", K, "ValidatorsByConsAddr", setOf("Set"), []string{"(opchild/keeper.MsgServer).AddValidator", "(opchild.AppModule).EndBlock", "(opchild.AppModule).InitGenesis"})
+		c.writersTable("C13.R1", K, "ValidatorsByConsAddr", setOf("Remove", "Clear"), []string{"(opchild.AppModule).EndBlock", "(opchild.AppModule).InitGenesis"})
+		c.writersTable("C13.R1", K, "LastValidatorPowers", setOf("Set"), []string{"(opchild.AppModule).EndBlock", "(opchild.AppModule).InitGenesis"})
+		c.writersTable("C13.R1", K, "LastValidatorPowers", setOf("Remove", "Clear"), []string{"(opchild.AppModule).EndBlock", "(opchild.AppModule).InitGenesis"})
+		// who reaches the low-level helpers is the same question at entry level (helpers are transparent)
+		callersTable(c, "C13.R1", c.Method(childKeeper, "Keeper", "RemoveValidator"), []string{"(opchild.AppModule).EndBlock", "(opchild.AppModule).InitGenesis"})
 	})
 
 	c.Rule("C13.R2", func() {
@@ -471,7 +468,7 @@ func propC13(c *Ctx) {
 	})
 
 	c.Rule("C13.R6", func() {
-		c.writersTable("C13.R6", K, "Params", setOf("Set", "Remove"), []string{"(opchild/keeper.Keeper).SetParams", "(opchild/keeper.Keeper).ChangeExecutor"})
+		c.writersTable("C13.R6", K, "Params", setOf("Set", "Remove"), []string{"(opchild/keeper.MsgServer).UpdateParams", "(opchild.AppModule).EndBlock", "(opchild.AppModule).InitGenesis"})
 		sp := c.Method(childKeeper, "Keeper", "SetParams")
 		o := c.Ob("C13.R6", "SetParams: Params.Set only with validated params and MaxValidators >= len(all validators)")
 		for _, p := range c.Paths(sp, PO{Params: []string{"k", "ctx", "params"}, NoInline: []string{".Validate", "GetAllValidators"}}) {
